@@ -168,6 +168,15 @@ def run_redirect(case):
     loc, same = LOCS[lockind]
     with World() as w:
         client = make_client(w, mode="auto")
+        if chain == "then-refused":
+            tcp0 = client.tcp_client
+            orig_connect = tcp0.connect
+
+            def connect(*a, **k2):
+                if len(tcp0.conns) >= 1:
+                    tcp0.mode = "manual"
+                return orig_connect(*a, **k2)
+            tcp0.connect = connect
         headers = HTTPHeaders()
         kw = {}
         url = "http://origin.example/start"
@@ -185,8 +194,10 @@ def run_redirect(case):
         body = b"payload" if method in ("POST", "PUT") else None
         if body is not None:
             headers.add("Content-Type", "text/plain")
+        if maxred is not None:
+            kw["max_redirects"] = maxred          # None: the documented default (5) applies
         fut = client.fetch(HTTPRequest(url, method=method, headers=headers, body=body, follow_redirects=True,
-                                       max_redirects=maxred, **kw), raise_error=False)
+                                       **kw), raise_error=False)
         w.pump()
         # plan of Location values per hop
         if chain == "one":
@@ -195,13 +206,24 @@ def run_redirect(case):
             plan = [loc, "/again"]
         elif chain == "cross-then-back":
             plan = [loc, "http://origin.example/back"]
+        elif chain == "loop":
+            plan = [loc] + ["/again%d" % i for i in range(9)]
+        elif chain == "then-refused":
+            plan = [loc]
         else:
             plan = ["/first", loc]
         hops = []
         tcp = client.tcp_client
         k = 0
-        while k < len(tcp.conns) and k < 8:
+        while k < len(tcp.conns) and k < 12:
             c = tcp.conns[k]
+            if chain == "then-refused" and k == 1:
+                # the follow-up request cannot connect
+                hops.append({"host": c["host"], "port": c["port"], "ssl": c["ssl"], "req": None})
+                tcp.fail(c)
+                w.pump()
+                k += 1
+                continue
             raw = bytes(c["sock"].sent)
             req = parse_request(raw)
             hops.append({"host": c["host"], "port": c["port"], "ssl": c["ssl"], "req": req})
@@ -231,9 +253,17 @@ def judge_redirect(case, o):
     bad = []
     hops, plan = o["hops"], o["plan"]
     res = o["res"]
-    want_followed = min(maxred, len(plan))
+    want_followed = min(5 if maxred is None else maxred, len(plan))
+    if chain == "then-refused":
+        if res[0] == "pending":
+            bad.append(("pending:follow-up-connect-failed", "the redirect target refused the connection and the fetch never completed"))
+        elif res[0] == "ok" and res[1] not in (599,):
+            bad.append(("final-code:follow-up-connect-failed", "follow-up could not connect but the fetch returned %r" % (res[:3],)))
+        if o["errs"]:
+            bad.append(("loop-exception", repr(o["errs"][:2])))
+        return bad
     if len(hops) - 1 != want_followed:
-        bad.append(("redirect-count", "followed %d redirects, expected %d (max_redirects=%d, chain of %d)"
+        bad.append(("redirect-count", "followed %d redirects, expected %d (max_redirects=%r, chain of %d)"
                     % (len(hops) - 1, want_followed, maxred, len(plan))))
     if res[0] == "pending":
         bad.append(("pending", "fetch never completed"))
@@ -288,6 +318,11 @@ def redirect_cases():
                             if chain != "one" and (maxred < 2 or cred not in ("authorization", "two-cookies", "url-userinfo")):
                                 continue
                             yield (status, method, lk, cred, maxred, chain)
+            # the default limit on an endless chain, and a follow-up request that cannot connect
+            for lk in ("relative", "other-host"):
+                yield (status, method, lk, "none", None, "loop")
+                yield (status, method, lk, "none", 2, "loop")
+                yield (status, method, lk, "authorization", 3, "then-refused")
 
 
 class C09(Check):
@@ -358,7 +393,7 @@ class C09(Check):
             st.states.add(key)
             if case[3] != "none" and not LOCS[case[2]][1]:
                 st.nontrivial.add(key)
-            st.outcome(h((o["res"][:2], len(o["hops"]), tuple(hp["req"][0] for hp in o["hops"]))))
+            st.outcome(h((o["res"][:2], len(o["hops"]), tuple(hp["req"][0] if hp["req"] else "refused" for hp in o["hops"]))))
             for sig, msg in judge_redirect(case, o):
                 st.violation("redirect:" + sig, "case %r: %s" % (case, msg), {"kind": "redir", "case": case})
 
